@@ -395,6 +395,14 @@ def r5_reductions(repo: Repo, rep):
                     # model evaluated on the batch's own input, target is the batch's own output
                     good = good and _batch_index(l) != _batch_index(rr)
                 rep.check(R, good, cd.site(p.ret_node), cd.fq, "|model(batch input) - batch target|", dump(r)[:140], dump(r)[:140])
+                constrained = [pol for g, pol, k in p.guards if dump(g) == "self.constrain_fn"]
+                if good and constrained and not constrained[0]:
+                    # without a constrain function the model output is a Points object: the target columns are paired with it by NAME
+                    tgt = r.args[0].right
+                    sel = [c for c in ast.walk(tgt) if isinstance(c, ast.Subscript) and any(isinstance(x, ast.Call) and attr_chain(x.func) == "list" and x.args and
+                                                                                         ("self.module(" in dump(x.args[0]) or "output_space" in dump(x.args[0])) for x in ast.walk(c.slice))]
+                    rep.check(R, bool(sel), cd.site(p.ret_node), cd.fq, "the target's columns are selected by the model's output variables (list(<output>.space.keys())) before the subtraction",
+                              f"target used as stored: {dump(tgt)[:80]}", f"target not aligned by name: {dump(tgt)[:80]}")
     from .c16 import data_loss_rules
     R2 = rep.rule("R-C04-5b", "data conditions over the full data set: max / mean of per-batch means, root applied last", floor=3,
                   why="the documented norm of model-minus-target over the data set")
@@ -547,6 +555,7 @@ _C = "src/torchphysics/problem/conditions/condition.py"
 _P = "src/torchphysics/problem/spaces/points.py"
 _FW = "        x_coordinates, x = x.track_coord_gradients()\n\n        data = {}\n        for fun in self.data_functions:\n            data[fun] = self.data_functions[fun](x_coordinates)\n\n        y = self.module(x)\n\n        unreduced_loss = self.error_fn(\n            self.residual_fn(\n                {**y.coordinates, **x_coordinates, **self.parameter.coordinates, **data}"
 MUTANTS = [
+    dict(id="C04-M60", file=_C, old="            y = y[..., list(model_out.space.keys())]\n", new="", rule="R-C04-5", what="target columns paired by position (the repaired defect)"),
     dict(id="C04-M1", file=_C, old="        return torch.sum(torch.square(x), dim=-1)", new="        return torch.mean(torch.square(x), dim=-1)", rule="R-C04-5", what="mean over components"),
     dict(id="C04-M2", file=_C, old="        return torch.sum(torch.square(x), dim=-1)", new="        return torch.sum(torch.square(x), dim=0)", rule="R-C04-5", what="sum over points"),
     dict(id="C04-M3", file=_C, old=_FW, new=_FW.replace("**self.parameter.coordinates, ", ""), rule="R-C04-3", what="parameters dropped from the residual"),
